@@ -13,14 +13,19 @@ CONSTANT Mode
 Dirs == {"R", "C", "L1", "L2"}
 DS == {"absent", "dir", "meta", "meta_ci"}
 HasMeta(s) == s \in {"meta", "meta_ci"}
-Configs == {c \in [st : [Dirs -> DS], names : {"cur", "leg", "both", "none", "mix_il", "mix_rl"}, content : {"valid", "validempty", "notjson", "empty", "wrongtype"},
-                   cibad : BOOLEAN, slash : BOOLEAN, rev : BOOLEAN, http : BOOLEAN] :
+Configs == {c \in [st : [Dirs -> DS], names : {"cur", "leg", "both", "none", "mix_il", "mix_rl", "both_curbad", "both_legbad"}, content : {"valid", "validempty", "notjson", "empty", "wrongtype"},
+                   cibad : BOOLEAN, slash : BOOLEAN, rev : BOOLEAN, http : BOOLEAN, link : {"none", "rel", "abs"}] :
               /\ (c.st["R"] = "absent" => \A d \in Dirs : c.st[d] = "absent")
               /\ (c.cibad => c.content = "valid")
               \* over HTTP there is no directory listing: only compose/ and the location itself are probed
               /\ (c.http => c.st["R"] # "absent" /\ ~c.rev /\ c.names \in {"cur", "leg", "none"} /\ c.content \in {"valid", "notjson"})
               /\ (c.rev => c.names \in {"mix_il", "mix_rl", "both"} /\ ~c.slash)     \* accessor order matters only for mixed generations
               /\ (c.names \in {"mix_il", "mix_rl"} => c.content \in {"valid", "notjson"})
+              \* both names present, ONE of the two files undecodable (the other valid)
+              /\ (c.names \in {"both_curbad", "both_legbad"} => c.content = "valid" /\ ~c.http /\ ~c.rev /\ ~c.cibad)
+              \* the path handed to Compose() is a symbolic link to the compose directory (relative / absolute target)
+              /\ (c.link # "none" => c.st["R"] # "absent" /\ ~c.http /\ ~c.rev /\ ~c.cibad /\ c.content = "valid" /\ c.names \in {"cur", "leg"})
+              /\ (Mode = "quick" => (c.link # "none" => c.st["L2"] = "absent") /\ (c.names \in {"both_curbad", "both_legbad"} => ~c.slash /\ c.st["L2"] = "absent"))
               /\ (Mode = "quick" => (c.slash => c.names = "cur") /\ (c.content # "valid" => c.names \in {"cur", "both"}) /\ (c.content = "validempty" => c.names = "cur")) }
 \* ---- resolution
 Resolved(c) ==
@@ -30,18 +35,25 @@ Resolved(c) ==
   ELSE LET subs == {d \in {"C", "L1", "L2"} : HasMeta(c.st[d])}
        IN IF subs # {} THEN subs ELSE {"R"}
 \* ---- accessors on the resolved directory d
+OneBad == {"both_curbad", "both_legbad"}
+BadName(kind, c) == IF c.names = "both_curbad" THEN (IF kind = "images" THEN "images.json" ELSE "rpms.json")
+                    ELSE (IF kind = "images" THEN "image-manifest.json" ELSE "rpm-manifest.json")
 Names(kind, c) == CASE kind = "info" -> {"composeinfo.json"}
                     [] kind = "modules" -> IF c.names = "none" THEN {} ELSE {"modules.json"}
                     \* mix_il: images under the legacy name, rpms under the current one; mix_rl the other way round
-                    [] kind = "images" -> (IF c.names \in {"cur", "both", "mix_rl"} THEN {"images.json"} ELSE {}) \cup
-                                          (IF c.names \in {"leg", "both", "mix_il"} THEN {"image-manifest.json"} ELSE {})
-                    [] kind = "rpms" -> (IF c.names \in {"cur", "both", "mix_il"} THEN {"rpms.json"} ELSE {}) \cup
-                                        (IF c.names \in {"leg", "both", "mix_rl"} THEN {"rpm-manifest.json"} ELSE {})
+                    [] kind = "images" -> (IF c.names \in {"cur", "both", "mix_rl"} \cup OneBad THEN {"images.json"} ELSE {}) \cup
+                                          (IF c.names \in {"leg", "both", "mix_il"} \cup OneBad THEN {"image-manifest.json"} ELSE {})
+                    [] kind = "rpms" -> (IF c.names \in {"cur", "both", "mix_il"} \cup OneBad THEN {"rpms.json"} ELSE {}) \cup
+                                        (IF c.names \in {"leg", "both", "mix_rl"} \cup OneBad THEN {"rpm-manifest.json"} ELSE {})
 Get(kind, c, d) ==
   LET present == IF ~HasMeta(c.st[d]) THEN {} ELSE IF kind = "info" THEN (IF c.st[d] = "meta_ci" THEN {"composeinfo.json"} ELSE {})
                  ELSE Names(kind, c)
       bad == IF kind = "info" THEN c.cibad ELSE c.content \notin {"valid", "validempty"}
   IN IF present = {} THEN [out |-> "missing", files |-> {}]
+     \* one of two candidate files is undecodable: the file the library prefers decides (whichever that is, consistently):
+     \* preferred file bad -> RuntimeError naming it; preferred file good -> its document.  Never the other file's content
+     \* because the preferred one could not be decoded.
+     ELSE IF c.names \in OneBad /\ kind \in {"images", "rpms"} THEN [out |-> "onebad", files |-> present, bad |-> BadName(kind, c)]
      ELSE IF bad THEN [out |-> "undecodable", files |-> present]
      ELSE [out |-> "doc", files |-> present]
 Kinds == {"info", "images", "rpms", "modules"}
@@ -53,7 +65,7 @@ ASSUME Exists
 VARIABLE c
 Init == c \in Configs
 Next == FALSE /\ UNCHANGED c
-Emit == PrintT("@@" \o ToJson([st |-> c.st, names |-> c.names, content |-> c.content, cibad |-> c.cibad, slash |-> c.slash, rev |-> c.rev, http |-> c.http,
+Emit == PrintT("@@" \o ToJson([st |-> c.st, names |-> c.names, content |-> c.content, cibad |-> c.cibad, slash |-> c.slash, rev |-> c.rev, http |-> c.http, link |-> c.link,
                                 resolved |-> Resolved(c),
                                 exp |-> [d \in Resolved(c) |-> [k \in Kinds |-> Get(k, c, d)]]]))
 =============================================================================
